@@ -3,6 +3,7 @@
 from __future__ import annotations
 
 import ast
+import re
 from typing import List, Optional, Set
 
 from .. import hexa
@@ -452,4 +453,48 @@ def no_stale_lazy_cache(repo: Repo) -> RuleRun:
 
 no_stale_lazy_cache.rule_id = "C05.NO-STALE-CACHE"
 
-RULES = [lookup_before_create, dense_index, tolerance_siblings, eq_hash, slave_only, corner_patches, add_scenarios, merge_state_survives, no_stale_lazy_cache]
+def merge_roles(repo: Repo) -> RuleRun:
+    """'vertices on a slave patch are duplicated': which of the two names is the slave is what the USER said - merge_patches(master,
+    slave) - whatever the names look like. Abstract run of PatchList.merge and of the readers of the pair list (master_patches,
+    slave_patches, is_slave, description) for names in either alphabetical order, repeated and chained pairs."""
+    r = RuleRun(PROP, "C05.MERGE-ROLES", floor=4, what="PatchList.merge keeps the roles the caller gave (first name master, second slave) for names in either alphabetical order; the readers agree with it")
+    pl_cls = repo.cls("lists.patch_list.PatchList")
+    merge = repo.func("lists.patch_list.PatchList.merge")
+    for label, pairs in (
+        ("master sorts first", [("a_master", "z_slave")]),
+        ("slave sorts first", [("rotor_side", "casing_side")]),
+        ("two pairs, mixed order", [("rotor_side", "casing_side"), ("a_master", "z_slave")]),
+        ("the same pair requested twice", [("rotor_side", "casing_side"), ("rotor_side", "casing_side")]),
+        ("one master with two slaves", [("m", "s2"), ("m", "a1")]),
+    ):
+        pl = Obj("patch_list", cls=pl_cls)
+        pl.set("patches", {})
+        pl.set("default", {})
+        pl.set("merged", [])
+        try:
+            for ms in pairs:
+                Evaluator(repo=repo, module=merge.module).call_funcinfo(merge, [pl, ms[0], ms[1]])
+            ev = Evaluator(repo=repo, module=merge.module)
+            masters = ev.call_funcinfo(repo.find_method(pl_cls, "master_patches"), [pl])
+            slaves = ev.call_funcinfo(repo.find_method(pl_cls, "slave_patches"), [pl])
+            flags = {nm: ev.call_funcinfo(repo.find_method(pl_cls, "is_slave"), [pl, nm]) for ms in pairs for nm in ms}
+            text = ev.call_funcinfo(repo.find_method(pl_cls, "description"), [pl])
+        except (Raised, NotEvaluable) as err:
+            raise AnalysisError(f"PatchList.merge / readers not evaluable: {err}") from err
+        want_m, want_s = {ms[0] for ms in pairs}, {ms[1] for ms in pairs}
+        problems = []
+        if set(masters) != want_m or set(slaves) != want_s:
+            problems.append(f"master_patches = {sorted(masters)}, slave_patches = {sorted(slaves)}; declared masters {sorted(want_m)}, slaves {sorted(want_s)}")
+        wrong_flags = {nm: fl for nm, fl in flags.items() if fl != (nm in want_s)}
+        if wrong_flags:
+            problems.append(f"is_slave gives {wrong_flags}")
+        written = re.findall(r"\((\S+) (\S+)\)", text if isinstance(text, str) else "")
+        if set(written) != set(pairs):
+            problems.append(f"mergePatchPairs lists {written}")
+        r.check(not problems, merge, f"{label}: roles kept", f"PatchList.merge, {label} {pairs}: " + "; ".join(problems) + " - the roles of the two patches depend on their names: vertices are duplicated on the wrong side of the interface", merge.node, key=f"merge:{label}")
+    return r
+
+
+merge_roles.rule_id = "C05.MERGE-ROLES"
+
+RULES = [lookup_before_create, dense_index, tolerance_siblings, eq_hash, slave_only, corner_patches, add_scenarios, merge_state_survives, no_stale_lazy_cache, merge_roles]
